@@ -90,6 +90,13 @@ func c17(r *Report) {
 	})
 
 	r.Guard("C17.R2", "a duplicate request ID is rejected without disturbing the log", func() {
+		harEntryCompleteRule(r)
+		// recording fails, and the exchange is missing from the log, only where it does on the pinned
+		// tree (a failure to snapshot or parse the body)
+		for _, n := range []string{"NewRequest", "NewResponse", "postData", "Logger.RecordRequest", "Logger.RecordResponse"} {
+			errorsReturnedRule(r, r.W.Fn("har", n), true)
+		}
+		partialStatusRule(r)
 		g := G(rr)
 		var lookup *ssa.Lookup
 		for _, in := range instrs(rr) {
@@ -547,6 +554,7 @@ func c17(r *Report) {
 		// ... and an ID is only handed out when the random source delivered it (an ID made of the
 		// zero bytes of a failed read is the same for every exchange)
 		errorsReturnedRule(r, r.W.Fn("", "newID"), false)
+		contextIDFreshRule(r)
 		// what an export returns is a function of the ring and the map alone: no branch of
 		// Export / ExportAndReset looks at other logger state (a counter or a generation
 		// number kept beside the list can disagree with it)
@@ -636,23 +644,7 @@ func c17(r *Report) {
 			}
 		}
 
-		// "export-and-reset returns exactly the completed entries ... and keeps pending
-		// ones": callers get that from ExportAndReset, which does it in one critical
-		// section. An Export followed by a Reset is a different operation: it also
-		// returns and drops the entries still waiting for their response.
-		nER := 0
-		for _, f := range w.Funcs("har") {
-			g := G(f)
-			for _, c := range calls(f, "(*M/har.Logger).ExportAndReset") {
-				_ = c
-				nER++
-			}
-			for _, c := range calls(f, "(*M/har.Logger).Export") {
-				p := g.PathTo([]ssa.Instruction{c}, false, nil, func(i ssa.Instruction) bool { _, y := isCall(i, "(*M/har.Logger).Reset"); return y })
-				r.Decide("path", fnName(f)+": no Reset after an Export", p == nil, "Export is not followed by Reset", "Export() followed by Reset() stands in for ExportAndReset(): pending entries are returned and dropped, their responses are then ignored, and entries recorded between the two calls are lost", c.Pos())
-			}
-		}
-		r.Decide("callgraph", "the reset endpoint exports through ExportAndReset", nER >= 1, fmt.Sprintf("%d caller(s) of ExportAndReset in package har", nER), "nothing in package har calls ExportAndReset any more: the reset-and-return endpoint cannot keep pending entries", token.NoPos)
+		harExportResetRule(r)
 
 		allowed := map[*types.Var]map[string]bool{
 			fEntries: {"(*M/har.Logger).RecordRequest": true, "(*M/har.Logger).ExportAndReset": true, "(*M/har.Logger).Reset": true, "M/har.NewLogger": true},
@@ -737,4 +729,132 @@ func opWritten(w *World, fo *types.Var) bool {
 		return true
 	}
 	return false
+}
+
+// harExportResetRule: the reset endpoint hands out the completed entries through
+// ExportAndReset, never through Export followed by Reset. Shared by C17.R5 and
+// C16.R7 (the response of an exchange in flight during the call must still
+// reach a later export).
+func harExportResetRule(r *Report) {
+	w := r.W
+	// "export-and-reset returns exactly the completed entries ... and keeps pending
+	// ones": callers get that from ExportAndReset, which does it in one critical
+	// section. An Export followed by a Reset is a different operation: it also
+	// returns and drops the entries still waiting for their response.
+	nER := 0
+	for _, f := range w.Funcs("har") {
+		g := G(f)
+		for _, c := range calls(f, "(*M/har.Logger).ExportAndReset") {
+			_ = c
+			nER++
+		}
+		for _, c := range calls(f, "(*M/har.Logger).Export") {
+			p := g.PathTo([]ssa.Instruction{c}, false, nil, func(i ssa.Instruction) bool { _, y := isCall(i, "(*M/har.Logger).Reset"); return y })
+			r.Decide("path", fnName(f)+": no Reset after an Export", p == nil, "Export is not followed by Reset", "Export() followed by Reset() stands in for ExportAndReset(): pending entries are returned and dropped, their responses are then ignored, and entries recorded between the two calls are lost", c.Pos())
+		}
+	}
+	r.Decide("callgraph", "the reset endpoint exports through ExportAndReset", nER >= 1, fmt.Sprintf("%d caller(s) of ExportAndReset in package har", nER), "nothing in package har calls ExportAndReset any more: the reset-and-return endpoint cannot keep pending entries", token.NoPos)
+
+}
+
+// harEntryCompleteRule: an entry becomes visible to exports (it is put into
+// the index and the ring) only with its request already recorded: the store to
+// Entry.Request precedes the publication on every path. Shared by C17.R2 and
+// C16.R7.
+func harEntryCompleteRule(r *Report) {
+	w := r.W
+	rr := w.Fn("har", "Logger.RecordRequest")
+	if rr == nil || rr.Blocks == nil {
+		r.Undecided("M/har.Logger.RecordRequest", "UNRESOLVED")
+		return
+	}
+	r.Touch(rr)
+	g := G(rr)
+	var pubs []ssa.Instruction
+	for _, in := range instrs(rr) {
+		if mu, isMu := in.(*ssa.MapUpdate); isMu && strings.Contains(mu.Map.Type().String(), "Entry") {
+			pubs = append(pubs, in)
+		}
+	}
+	isReqStore := func(i ssa.Instruction) bool {
+		st, ok := i.(*ssa.Store)
+		if !ok {
+			return false
+		}
+		fa, isFa := st.Addr.(*ssa.FieldAddr)
+		return isFa && fieldObj(fa).Name() == "Request" && namedOf(fa.X.Type()) == "Entry" && !isNilConst(st.Val)
+	}
+	ok := len(pubs) >= 1
+	for _, p := range pubs {
+		if path := g.PathTo([]ssa.Instruction{g.Entry()}, true, isReqStore, func(i ssa.Instruction) bool { return i == p }); path != nil {
+			ok = false
+		}
+	}
+	r.Decide("path", "(*M/har.Logger).RecordRequest: an entry is published with its request recorded", ok, "the store to Entry.Request precedes the insertion into the index on every path", "the entry is put into the log before its request has been recorded (and stays there when recording fails): an export that runs in between, or after a failure, lists an exchange without a request", rr.Pos())
+}
+
+// partialStatusRule: a response that has no complete body of its own - 204 No
+// Content and 206 Partial Content - is never run through a content decoder:
+// SnapshotResponse clears the recorded content coding for exactly these two.
+// A decoder set up over nothing (or over a fragment) fails, the response is
+// not attached to its entry, and the entry stays pending for ever. Shared by
+// C17.R2 and C16.R2.
+func partialStatusRule(r *Report) {
+	w := r.W
+	sr := w.Fn("messageview", "MessageView.SnapshotResponse")
+	if sr == nil || sr.Blocks == nil {
+		r.Undecided("M/messageview.MessageView.SnapshotResponse", "UNRESOLVED")
+		return
+	}
+	r.Touch(sr)
+	isStatus := func(v ssa.Value) bool {
+		ld, ok := v.(*ssa.UnOp)
+		if !ok || ld.Op != token.MUL {
+			return false
+		}
+		fa, isFa := ld.X.(*ssa.FieldAddr)
+		return isFa && fieldObj(fa).Name() == "StatusCode"
+	}
+	var first *ssa.BinOp
+	for _, in := range instrs(sr) {
+		if b, isB := in.(*ssa.BinOp); isB && first == nil && (isStatus(b.X) || isStatus(b.Y)) {
+			first = b
+		}
+	}
+	if first == nil {
+		r.Fail("table", "(*M/messageview.MessageView).SnapshotResponse: 204 and 206 are not decoded", "no test of the status code: a bodiless or partial response is handed to the content decoder", nil, sr.Pos())
+		return
+	}
+	ok := true
+	detail := ""
+	for _, code := range []int64{200, 204, 206, 304} {
+		out, okD := decide(first.Block(), func(v ssa.Value) (bool, bool) {
+			ev := &miniEval{leaf: func(x ssa.Value) (int64, bool) {
+				if isStatus(x) {
+					return code, true
+				}
+				return 0, false
+			}}
+			return ev.Bool(v)
+		})
+		if !okD || out == nil {
+			ok, detail = false, "the decision could not be evaluated"
+			continue
+		}
+		cleared := false
+		for _, in := range out.Instrs {
+			if st, isSt := in.(*ssa.Store); isSt {
+				if fa, isFa := st.Addr.(*ssa.FieldAddr); isFa && fieldObj(fa).Name() == "compress" {
+					if k, isK := constString(st.Val); isK && k == "" {
+						cleared = true
+					}
+				}
+			}
+		}
+		if cleared != (code == 204 || code == 206) {
+			ok = false
+			detail = fmt.Sprintf("status %d: coding cleared = %v", code, cleared)
+		}
+	}
+	r.Decide("table", "(*M/messageview.MessageView).SnapshotResponse: the content coding is dropped exactly for 204 and 206", ok, "evaluated for 200, 204, 206, 304", detail+": a response without a complete body is run through the decoder named in its Content-Encoding, the decoder fails on the empty or partial input, the response is not recorded and its entry stays pending", first.Pos())
 }
